@@ -133,7 +133,15 @@ def replay(ctx):
 
 def run(ctx):
     if ctx.replay:
+        _rp = vlib.json.load(open(ctx.replay)).get("replay")
+        _sig = vlib.json.load(open(ctx.replay)).get("signature", "")
+        if _sig.startswith(("server:", "serverconn:", "X_server")) or (isinstance(_rp, dict) and "beh" in _rp and _rp.get("kind") in ("tcp", "udp")):
+            import server_extra
+            return server_extra.run_extra(ctx)
         return replay(ctx)
+    # extra coverage: connection lifecycle of pkg/server (spec/ServerConn.tla, harness/drv_server), run concurrently
+    import server_extra
+    _bg_server = vlib.background(ctx, server_extra.run_extra, "server_extra")
     T = ctx.thorough()
     rng = random.Random(ctx.seed)
     ctx.assumptions += [
@@ -230,3 +238,4 @@ def run(ctx):
     ctx.cov["exhaustive"] = bool(T)
     for r in [r for r in recs if r["kind"] == "replay"][:2] + [r for r in recs if r["kind"] == "server"][:1]:
         ctx.sample({"kind": r["kind"], "map": r.get("map"), "events": (r.get("events") or [])[:12]})
+    _bg_server.join()
